@@ -2063,6 +2063,9 @@ impl Connection {
             _ => unreachable!("first packet must be delivered in Handshake state"),
         }
 
+        // Record the packet number so that a duplicate of this datagram is not processed again
+        self.spaces[SpaceId::Initial].dedup.insert(packet_number);
+
         self.on_packet_authenticated(
             now,
             SpaceId::Initial,
